@@ -386,6 +386,9 @@ func symNames(ss []decoder.Symbol) []string {
 // schemaKnownNames lists the block/attribute outline of a path restricted to
 // items known to the effective schema (what a schema-driven JSON decoding can
 // see). certain=false: some block's keys or label count leave the decoding open.
+// whyUncertain: reason of the last certain=false (reach probe only).
+var whyUncertain string
+
 func schemaKnownNames(p *h.PathState) (names []string, certain bool) {
 	certain = true
 	blockName := func(bi *world.BlockItem) string {
@@ -420,6 +423,7 @@ func schemaKnownNames(p *h.PathState) (names []string, certain bool) {
 			}
 			if uncertain(mc) {
 				certain = false
+				whyUncertain = "keys_open"
 				return
 			}
 			if mc.Eff != nil {
@@ -427,8 +431,9 @@ func schemaKnownNames(p *h.PathState) (names []string, certain bool) {
 				// JSON: what it selects there is not defined by the statement
 				for _, ka := range mc.Eff.KeyAttrs {
 					for _, it := range mc.Items {
-						if it.Attr != nil && it.Attr.Name == ka && it.Attr.Expr != nil && it.Attr.Expr.K != "str" && it.Attr.Expr.K != "num" && it.Attr.Expr.K != "bool" && it.Attr.Expr.K != "raw" {
+						if it.Attr != nil && it.Attr.Name == ka && it.Attr.Expr != nil && it.Attr.Expr.K != "str" && it.Attr.Expr.K != "num" && it.Attr.Expr.K != "bool" && it.Attr.Expr.K != "raw" && it.Attr.Expr.K != "ref" {
 							certain = false
+							whyUncertain = "key_attr_nonliteral_" + it.Attr.Expr.K
 							return
 						}
 					}
@@ -436,6 +441,7 @@ func schemaKnownNames(p *h.PathState) (names []string, certain bool) {
 			}
 			if mc.Block != nil && len(mc.Item.Labels) != len(mc.Block.Labels) {
 				certain = false // JSON nests by label: another label count is another structure
+			whyUncertain = "label_count"
 				return
 			}
 			if mc.Body == nil {
